@@ -2,10 +2,10 @@ package main
 
 import (
 	"fmt"
-	"sync"
-	"runtime/debug"
 	"go/types"
+	"runtime/debug"
 	"strings"
+	"sync"
 	"unicode"
 
 	"golang.org/x/tools/go/ssa"
@@ -120,26 +120,26 @@ var nativeIntrinsics = map[string]intrinsic{
 		}
 		return fromTerm(it.tt.FUn(OBitsToF, SF32, args[0].Ref.(*Term)))
 	},
-	"runtime.Gosched":     noop,
-	"runtime.KeepAlive":   noop,
+	"runtime.Gosched":      noop,
+	"runtime.KeepAlive":    noop,
 	"runtime.SetFinalizer": noop,
-	"unicode.IsLetter":    unicodePred("IsLetter", unicode.IsLetter),
-	"unicode.IsDigit":     unicodePred("IsDigit", unicode.IsDigit),
-	"unicode.IsNumber":    unicodePred("IsNumber", unicode.IsNumber),
-	"unicode.IsUpper":     unicodePred("IsUpper", unicode.IsUpper),
-	"unicode.IsLower":     unicodePred("IsLower", unicode.IsLower),
-	"unicode.IsTitle":     unicodePred("IsTitle", unicode.IsTitle),
-	"unicode.IsSpace":     unicodePred("IsSpace", unicode.IsSpace),
-	"unicode.IsPrint":     unicodePred("IsPrint", unicode.IsPrint),
-	"unicode.IsGraphic":   unicodePred("IsGraphic", unicode.IsGraphic),
-	"unicode.IsPunct":     unicodePred("IsPunct", unicode.IsPunct),
-	"unicode.IsControl":   unicodePred("IsControl", unicode.IsControl),
-	"unicode.IsSymbol":    unicodePred("IsSymbol", unicode.IsSymbol),
-	"unicode.IsMark":      unicodePred("IsMark", unicode.IsMark),
-	"unicode.ToUpper":     unicodeMap("ToUpper", unicode.ToUpper),
-	"unicode.ToLower":     unicodeMap("ToLower", unicode.ToLower),
-	"unicode.ToTitle":     unicodeMap("ToTitle", unicode.ToTitle),
-	"unicode.SimpleFold":  unicodeMap("SimpleFold", unicode.SimpleFold),
+	"unicode.IsLetter":     unicodePred("IsLetter", unicode.IsLetter),
+	"unicode.IsDigit":      unicodePred("IsDigit", unicode.IsDigit),
+	"unicode.IsNumber":     unicodePred("IsNumber", unicode.IsNumber),
+	"unicode.IsUpper":      unicodePred("IsUpper", unicode.IsUpper),
+	"unicode.IsLower":      unicodePred("IsLower", unicode.IsLower),
+	"unicode.IsTitle":      unicodePred("IsTitle", unicode.IsTitle),
+	"unicode.IsSpace":      unicodePred("IsSpace", unicode.IsSpace),
+	"unicode.IsPrint":      unicodePred("IsPrint", unicode.IsPrint),
+	"unicode.IsGraphic":    unicodePred("IsGraphic", unicode.IsGraphic),
+	"unicode.IsPunct":      unicodePred("IsPunct", unicode.IsPunct),
+	"unicode.IsControl":    unicodePred("IsControl", unicode.IsControl),
+	"unicode.IsSymbol":     unicodePred("IsSymbol", unicode.IsSymbol),
+	"unicode.IsMark":       unicodePred("IsMark", unicode.IsMark),
+	"unicode.ToUpper":      unicodeMap("ToUpper", unicode.ToUpper),
+	"unicode.ToLower":      unicodeMap("ToLower", unicode.ToLower),
+	"unicode.ToTitle":      unicodeMap("ToTitle", unicode.ToTitle),
+	"unicode.SimpleFold":   unicodeMap("SimpleFold", unicode.SimpleFold),
 }
 
 // Unicode classification of a symbolic rune: exact for every rune. The
@@ -370,7 +370,6 @@ func allFunctions(prog *ssa.Program) map[*ssa.Function]bool {
 	}
 	return seen
 }
-
 
 // ---- globals and package initialisation ----
 
